@@ -23,7 +23,7 @@ import (
 
 // ---------- generation ----------
 
-var tidPool = []int64{4, 8, 12, 16, 10, 4000, 1 << 40} // quarters: 1, 2, 3, 4, 2.5, 1000, 2^38
+var tidPool = []int64{4, 8, 12, 16, 10, 4000, 1 << 40, 0, -4, 4, 8} // quarters: 1, 2, 3, 4, 2.5, 1000, 2^38, 0, -1
 
 func genPacketOp(g *kernel.Rng, e int, respBias bool) kernel.Op {
 	t := tidPool[g.Intn(len(tidPool))]
@@ -586,6 +586,14 @@ func evalDir(res *kernel.Result, p *kernel.Plan, from, to *side, name string) bo
 		}
 	}
 	sort.Slice(regs, func(i, j int) bool { return regs[i].step1 < regs[j].step1 })
+	// requests sent with a transaction id <= 0 ("no response expected" in RTMP):
+	// whether an answer to one of them is matched is left open
+	nonposReq := map[float64]bool{}
+	for _, sr := range to.sends {
+		if sr.err == nil && sr.reqName != "" && sr.tid <= 0 {
+			nonposReq[sr.tid] = true
+		}
+	}
 	var sent []sendRec
 	for _, sr := range from.sends {
 		if sr.err != nil {
@@ -656,7 +664,13 @@ func evalDir(res *kernel.Result, p *kernel.Plan, from, to *side, name string) bo
 			return exp{[]string{"", "*rtmp.ConnectAppResPacket", "*rtmp.CreateStreamResPacket"}, false}
 		}
 		nm, ok := model[t]
+		if !ok && nonposReq[t] {
+			return exp{[]string{"", "*rtmp.ConnectAppResPacket", "*rtmp.CreateStreamResPacket"}, false}
+		}
 		if !ok {
+			if t <= 0 {
+				res.Stat("responses_without_request_id_not_positive", 1)
+			}
 			res.Stat("responses_without_request", 1)
 			return exp{[]string{""}, false}
 		}
